@@ -8,6 +8,13 @@ cd $V
 seeds="$@"; [ -z "$seeds" ] && seeds=$(ls seeded | grep -v MATRIX)
 OUT=seeded/MATRIX.md
 [ $# -eq 0 ] && { echo "| seed | property | verdict | first failed obligation(s) |"; echo "|---|---|---|---|"; } > $OUT
+# PAR=<n>: run n seeds at a time (each in its own scratch copy); lines are appended as seeds finish, sort afterwards
+if [ -n "$PAR" ] && [ $# -eq 0 ]; then
+  P=$PAR; export PAR=
+  echo $seeds | tr ' ' '\n' | xargs -P $P -n 1 "$0"
+  { head -2 $OUT; tail -n +3 $OUT | sort; } > $OUT.tmp && mv $OUT.tmp $OUT
+  exit 0
+fi
 for s in $seeds; do
   [ -f seeded/$s/patch.diff ] || continue
   props=$(python3 -c "import json;m=json.load(open('seeded/$s/meta.json'));print(' '.join([m['property']]+m.get('also_check',[])))")
